@@ -108,6 +108,56 @@ theorem decodesEnd_serverData (st : State) (h : wf st = true) :
   refine DecodesEnd.bind (decodes_lenStr _ hdesc) ?_ rfl
   exact DecodesEnd.bind_pure (decodesEnd_optStr _ hmode) (fun _ => rfl)
 
+/-! ### strings that contain U+0000: the text ends there, the cursor still moves past the declared length -/
+
+/-- what the reader makes of a string: the bytes before the first NUL -/
+def cutNul (s : Bytes) : Bytes := s.take (findByte 0 s)
+
+def cutState (st : State) : State :=
+  { st with name := cutNul st.name, map := cutNul st.map, versionType := cutNul st.versionType,
+            description := cutNul st.description, modeName := st.modeName.map cutNul }
+
+def okStrCut (s : Bytes) : Bool := s.length < 256 && validUtf8 (cutNul s)
+
+/-- `wf` without the exclusion of U+0000 -/
+def wfCut (st : State) : Bool :=
+  okStrCut st.name && okStrCut st.map && okInt st.totalPlayers && okInt st.wave && okInt st.build &&
+  okStrCut st.versionType && okInt st.playerLimit && okStrCut st.description && st.modeName.all okStrCut &&
+  (encode st).length ≤ 500
+
+theorem decodes_lenStr_cut (s : Bytes) (h : okStrCut s = true) : Decodes readLenStr (lenStr s) (cutNul s) := by
+  simp only [okStrCut, Bool.and_eq_true, decide_eq_true_eq] at h
+  exact decodes_readLenStr_cut s h.1 h.2
+
+theorem decodesEnd_optStr_cut (o : Option Bytes) (h : o.all okStrCut = true) :
+    DecodesEnd (optional readLenStr) (optStr o) (o.map cutNul) := by
+  intro b hr
+  cases o with
+  | none =>
+    obtain ⟨k, hk⟩ := readLenStr_at_end b hr
+    exact ⟨b, by simp [optional, hk], rfl⟩
+  | some s =>
+    obtain ⟨b', hp, _, hd⟩ := decodes_lenStr_cut s (by simpa using h) b [] (by simpa [optStr] using hr)
+    exact ⟨b', by simp [optional, hp], hd⟩
+
+theorem decodesEnd_serverData_cut (st : State) (h : wfCut st = true) :
+    DecodesEnd parseServerData (encode st) (expected (cutState st)) := by
+  simp only [wfCut, Bool.and_eq_true, decide_eq_true_eq] at h
+  obtain ⟨⟨⟨⟨⟨⟨⟨⟨⟨hname, hmap⟩, hpl⟩, hwave⟩, hbuild⟩, hvt⟩, hlim⟩, hdesc⟩, hmode⟩, _⟩ := h
+  unfold parseServerData encode
+  simp only [List.append_assoc]
+  refine DecodesEnd.bind (decodes_lenStr_cut _ hname) ?_ rfl
+  refine DecodesEnd.bind (decodes_lenStr_cut _ hmap) ?_ rfl
+  refine DecodesEnd.bind (decodes_be32 _ hpl) ?_ rfl
+  refine DecodesEnd.bind (decodes_be32 _ hwave) ?_ rfl
+  refine DecodesEnd.bind (decodes_be32 _ hbuild) ?_ rfl
+  refine DecodesEnd.bind (decodes_lenStr_cut _ hvt) ?_ rfl
+  refine DecodesEnd.bind (decodes_u8 _ (ordinal_lt _)) ?_ rfl
+  refine DecodesEnd.bind (e1 := []) (by rw [gameModeOf_ordinal]; exact Decodes.lift_ok _) ?_ rfl
+  refine DecodesEnd.bind (decodes_be32 _ hlim) ?_ rfl
+  refine DecodesEnd.bind (decodes_lenStr_cut _ hdesc) ?_ rfl
+  exact DecodesEnd.bind_pure (decodesEnd_optStr_cut _ hmode) (fun _ => rfl)
+
 /-- the whole exchange against a conforming server: socket, ping, one datagram, decode -/
 theorem attempt_script (port : Nat) (d : Bytes) (hd : d.length ≤ MAX_BUFFER_SIZE) :
     (attempt port (Net.init [.opened [.data d]] [])).1 = parseServerData.run d := by
